@@ -1,7 +1,7 @@
 """C03.unsafe — raw memory accesses of the VM.
 
 (a) inventory: every unchecked access (get_unchecked*, from_raw_parts*, pointer add/offset, unwrap_unchecked,
-    reference/slice transmutes) in runtime::vm* is keyed `function|kind|count`; each key must be audited (the safety
+    reference/slice transmutes) in runtime::vm* is keyed `owner type (or module)|kind|count`; each key must be audited (the safety
     of most of them rests on C05's layout argument and cannot be discharged locally).  A new raw access, or a changed
     count, is reported.
 (b) the ring buffer's unchecked indices are discharged mechanically: both indices are `… % len` of the indexed
@@ -13,12 +13,22 @@ from ..symex import PathLimit, SymEx, show
 RAW = ("get_unchecked", "get_unchecked_mut", "from_raw_parts", "from_raw_parts_mut", "slice_from_raw_parts", "slice_from_raw_parts_mut", "unwrap_unchecked", "offset", "add", "sub", "copy_nonoverlapping", "read", "write")
 
 
+def _owner(facts, f):
+    """the type whose method (or, for a free function, the module in which) the access is made: keys must survive the
+    rename of a private method"""
+    r = facts.fn(f.root) or f
+    st = (r.d.get("self_ty") or "").strip()
+    if st:
+        return st.replace("mimium_lang::", "")
+    return r.short.rsplit("::", 1)[0]
+
+
 def raw_sites(facts):
     out = {}
     for f in facts.crate(roles.LANG).fns:
         if "::runtime::vm" not in f.path or f.kind == "promoted" or "::test" in f.path:
             continue
-        root = f.root.split("::", 1)[1]
+        root = _owner(facts, f)
         for b, t in f.calls():
             c = callee(t) or ""
             n = c.split("::")[-1]
@@ -48,7 +58,7 @@ def rule_inventory(ck, facts):
     R = "C03.unsafe"
     ck.rule(R, "every unchecked memory access in runtime::vm* is in the audited inventory (function, kind, count); the ring buffer's unchecked indices are reduced modulo the indexed slice's own length with the empty case excluded")
     sites = raw_sites(facts)
-    ck.floor(R, "raw_access_groups", len(sites), 20)
+    ck.floor(R, "raw_access_groups", len(sites), 16)
     for (root, kind), lst in sorted(sites.items()):
         f, item = lst[0]
         ck.bad(R, "raw|%s|%s|x%d" % (root, kind, len(lst)), "%d unchecked access(es) `%s` in %s: not audited (its bound must come from a check or from the state-layout argument of C05)" % (len(lst), kind, root), f.where(item))
